@@ -39,8 +39,9 @@ type vSimEvent struct {
 	Loss  float64        `json:"loss"`
 	Dup   float64        `json:"dup"`
 	Cut   float64        `json:"cut"`
-	Delay int64          `json:"delay"`  // ms: min delay
-	Jit   int64          `json:"jitter"` // ms
+	SErr  float64        `json:"senderr"` // probability of a transient local send error
+	Delay int64          `json:"delay"`   // ms: min delay
+	Jit   int64          `json:"jitter"`  // ms
 	Tmo   int64          `json:"timeout"`
 	Count int            `json:"count"` // burst: number of user messages
 	Host  bool           `json:"host"`  // crash: the whole host goes away (connection attempts time out instead of being refused)
@@ -441,7 +442,7 @@ func (v *vSim) exec(e vSimEvent) {
 	case "heal":
 		v.net.partition(map[string]int{})
 	case "faults":
-		v.net.setFaults(vNetFaults{Loss: e.Loss, Dup: e.Dup, CutProb: e.Cut, MinDelay: time.Duration(e.Delay) * time.Millisecond,
+		v.net.setFaults(vNetFaults{Loss: e.Loss, Dup: e.Dup, CutProb: e.Cut, SendErr: e.SErr, MinDelay: time.Duration(e.Delay) * time.Millisecond,
 			Jitter: time.Duration(e.Jit) * time.Millisecond})
 	case "stop":
 		l := v.line("StopFaults", "")
